@@ -6,8 +6,9 @@ from vlib.runner import KH, run_kani_group, run_mir_obligations
 ENGINES = "KM"
 LEVEL = "other"
 EXPLANATION = ("Kani/CBMC memory-safety checks (every pointer dereference, pointer arithmetic, slice index and get_unchecked precondition CBMC emits) over the real x86 SIMD kernels with a symbolic length "
-               "covering the unrolled loop, the single-chunk loop and every tail length, on exact-size heap inputs; and over PackedLevel0's unchecked accessors / the visited bitset with arbitrary record words.")
-TRUSTED_BASE = ["Kani/CBMC pointer model", "stubs: FMA and AVX-512 arithmetic intrinsics return their accumulator (values are irrelevant to bounds); loads/stores are the real core::arch code"]
+               "covering the unrolled loop, the single-chunk loop and every tail length, on exact-size heap inputs; and over PackedLevel0's unchecked accessors / the visited bitset with arbitrary record words.  The accessors' preconditions at their call sites in FlatGraph's search code "
+               "(index < neighbour count, id < node count) are MIR path obligations (ONLY_VIA the guarding arm) decided by z3.")
+TRUSTED_BASE = ["Kani/CBMC pointer model", "rustc MIR construction (engine M)", "stubs: FMA and AVX-512 arithmetic intrinsics return their accumulator (values are irrelevant to bounds); loads/stores are the real core::arch code"]
 NOT_COVERED = ["use-after-free across threads", "graphs larger than three nodes / FlatGraph search loops as executions (their call-site guards are decided structurally by O17.4)", "the graph construction path", "NEON kernels", "release-only paths behind debug_assert",
                "lengths above 4*W+W+3 (the loops are periodic in W beyond that; stated, not proven)"]
 FS = [("simd.rs", r"dot_f32_sse2"), ("simd.rs", r"dot_f32_avx2"), ("simd.rs", r"dot_f32_avx512")]
